@@ -160,8 +160,9 @@ def ltsAct (s : String) : Option Martian.LockLTS.Act :=
   | 'U' :: r => (String.ofList r).toNat?.map .unlock
   | 'S' :: r => (String.ofList r).toNat?.map .signal
   | 'K' :: r => (String.ofList r).toNat?.map .kill
-  | 'E' :: r => (String.ofList r).toNat?.map .acquireErr
+  | 'E' :: r => (String.ofList r).toNat?.map (Martian.LockLTS.createErr Gen.c15LockCreateErrorIgnored)
   | 'T' :: r => (String.ofList r).toNat?.map .start
+  | 'F' :: r => (String.ofList r).toNat?.map .startFail
   | _ => none
 
 def ltsTrace (rf : Bool) : Martian.LockLTS.St → List Martian.LockLTS.Act → List String → Option (List String)
